@@ -198,6 +198,7 @@ def check_ordering_function(chk, fb, fbody, sorts):
         # ---- R01.3 / R01.4 decision table
         table_ok = True
         mism = []
+        u_independent = False
         for p, b in rows:
             assign = {}
             for d in p.decisions:
@@ -210,12 +211,17 @@ def check_ordering_function(chk, fb, fbody, sorts):
             if not table_ok:
                 break
             free = [a for a in ATOMS if a not in assign]
+            first = None
             for vals in itertools.product([False, True], repeat=len(free)):
                 full = dict(assign)
                 full.update(dict(zip(free, vals)))
                 if reference(full, flat) != (b > 0):
-                    mism.append((dict(assign), b, full))
-                    break
+                    if first is None:
+                        first = full
+                    if full.get("U", True):
+                        u_independent = True
+            if first is not None:
+                mism.append((dict(assign), b, first))
         if not table_ok:
             continue
         if not mism:
@@ -224,7 +230,7 @@ def check_ordering_function(chk, fb, fbody, sorts):
                 chk.ok("R01.4", "%s: an operator carrying a unary is never bumped" % name, "", loc(kbody["span"]))
         else:
             # attribute: does it match the reference without U (only R01.4 broken)?
-            only_u = flat and all(reference(dict(m[2], U=True), flat) == (m[1] > 0) for m in mism)
+            only_u = flat and not u_independent
             a, b, full = mism[0]
             what = "bump decision differs from the reference: on a path with %s the operator is %s, but for %s the reference says %s" % (
                 a, "bumped" if b > 0 else "not bumped", {k: v for k, v in full.items() if k not in a}, "bump" if reference(full, flat) else "no bump")
